@@ -174,7 +174,10 @@ func NewScheduler(executor Executor, checkpointer SchedulableService, opts ...tr
 					}
 					it := min.(Item)
 					if ts := s.time.Now().UTC(); it.When().After(ts) {
-						s.timer.Reset(ts.Sub(it.When()))
+						// the timer fired for an item that has since been released or rescheduled:
+						// wait for the new minimum (a negative duration here would fire at once, again and again)
+						s.when = it.When()
+						s.timer.Reset(s.when.Sub(ts))
 						s.mu.Unlock()
 						continue schedulerLoop
 					}
